@@ -290,6 +290,18 @@ def _expr_for(v: int, rng: random.Random) -> str:
     forms.append(f"0x{v:x}")
     forms.append(f"1 + 2 * {v} - {v} - 1")
     forms.append(f"{v * 7} / 7")
+    # operands beyond 2^53 and 2^64 (a mask divided by a unit, a product of two words): exact integer arithmetic gives v,
+    # anything that passes through a float or a fixed-width integer does not
+    K = rng.choice([1 << 53, (1 << 56), (1 << 60) - 1, 1 << 64, (1 << 70) + 12345, rng.getrandbits(80) | (1 << 79)])
+    r = rng.choice([0, 1, K - 1, K // 2])
+    forms.append(f"0x{v * K + r:X} / 0x{K:x}")
+    forms.append(f"{v * K + r} / {K}")
+    forms.append(f"({K} * {v + 1} - {K}) / {K}")
+    forms.append(f"{K} * {v} / {K} + {K} - {K}")
+    # left-to-right evaluation with equal precedence, and mixed precedence without parentheses
+    forms.append(f"{v + 10} - 4 - 6")
+    forms.append(f"{v * 4} / 2 / 2")
+    forms.append(f"2 * {v} + 6 - {v} - 2 * 3")
     return rng.choice(forms)
 
 
